@@ -12,7 +12,7 @@
    seam, fixed point with the ray-tracing matrix); TLC compares them (and computes the exact ones itself).
 Python only orchestrates, counts and maps TLC's verdicts."""
 import concurrent.futures as cf
-import json, os, time
+import json, os, re, time
 from . import lib
 
 ACTIONS = ["ANewFrame", "ABatch", "ASkipRecord", "ASkipEof", "ASavePosition", "AFrameStart", "ASetPosition", "ARewind",
@@ -40,13 +40,16 @@ def _record(ctx, exe, exe_omp):
     os.makedirs(os.path.join(w, "files"), exist_ok=True)
     # OpenMP runs: few threads, no spinning (the machine is shared)
     omp = {"OMP_NUM_THREADS": "3", "OMP_WAIT_POLICY": "passive", "GOMP_SPINCOUNT": "0"}
-    jobs = [("hist", exe, ["hist", os.path.join(w, "hist.ndjson"), 32 if q else 150, 36 if q else 50, 0 if q else 1, os.path.join(w, "files")], {}),
-            ("allbatch", exe, ["allbatch", os.path.join(w, "allbatch.ndjson"), 2 if q else 6, 20 if q else 40], {}),
+    cache = os.path.join(w, "cache")
+    os.makedirs(cache, exist_ok=True)
+    jobs = [("hist", exe, ["hist", os.path.join(w, "hist.ndjson"), 24 if q else 150, 36 if q else 50, 0 if q else 1, os.path.join(w, "files")], {}),
+            ("allbatch", exe, ["allbatch", os.path.join(w, "allbatch.ndjson"), 3 if q else 8, 18 if q else 40], {}),
             ("long", exe, ["long", os.path.join(w, "long.ndjson"), 1 if q else 3, 2000 if q else 10000], {}),
-            ("gradx", exe, ["gradx", os.path.join(w, "gradx.ndjson"), 16 if q else 200, 0 if q else 1], {}),
-            ("gradx-omp", exe_omp, ["gradx", os.path.join(w, "gradx-omp.ndjson"), 16 if q else 150, 0 if q else 1], omp),
-            ("grad", exe, ["grad", os.path.join(w, "grad.ndjson"), 4 if q else 40, 0 if q else 1], {}),
-            ("grad-omp", exe_omp, ["grad", os.path.join(w, "grad-omp.ndjson"), 12 if q else 150, 0 if q else 1], omp)]
+            ("ecat", exe, ["ecat", os.path.join(w, "ecat.ndjson"), 12 if q else 120, 40 if q else 80], {}),
+            ("gradx", exe, ["gradx", os.path.join(w, "gradx.ndjson"), 16 if q else 200, 0 if q else 1, cache], {}),
+            ("gradx-omp", exe_omp, ["gradx", os.path.join(w, "gradx-omp.ndjson"), 16 if q else 150, 0 if q else 1, cache], omp),
+            ("grad", exe, ["grad", os.path.join(w, "grad.ndjson"), 6 if q else 60, 0 if q else 1, cache], {}),
+            ("grad-omp", exe_omp, ["grad", os.path.join(w, "grad-omp.ndjson"), 10 if q else 150, 0 if q else 1, cache], omp)]
     out = []
     for name, x, args, e in jobs:
         ee = dict(env)
@@ -56,15 +59,27 @@ def _record(ctx, exe, exe_omp):
     return out
 
 
+STARTS = ("Config", "GConfig", "EConfig")
+
+
 def _execution(recs, ln):
     """the lines of the execution that contains (1-based) line ln: (first line number, records)"""
     a = ln - 1
-    while a > 0 and recs[a]["e"] not in ("Config", "GConfig"):
+    while a > 0 and recs[a]["e"] not in STARTS:
         a -= 1
     b = a + 1
-    while b < len(recs) and recs[b]["e"] not in ("Config", "GConfig"):
+    while b < len(recs) and recs[b]["e"] not in STARTS:
         b += 1
     return a + 1, recs[a:b]
+
+
+def _cover(r):
+    """the coverage counters printed by Trace_LmToProj (decided by TLC on accepted lines)"""
+    i = r.out.find('"COVER"')
+    if i < 0:
+        return {}
+    j = r.out.find("]", i)
+    return {k: int(v) for k, v in re.findall(r"(\w+) \|-> (\d+)", r.out[i:j])}
 
 
 def run(ctx):
@@ -88,13 +103,14 @@ def run(ctx):
     if ctx.replay:
         first = open(ctx.replay).readline()
         chunks = [("replay", c[0]) for c in lib.split_trace(ctx.replay, os.path.join(ctx.work, "chunks"), maxlines=10 ** 9,
-                                                             boundary="GConfig" if '"e":"GConfig"' in first else "Config")]
+                                                             boundary="GConfig" if '"e":"GConfig"' in first else "EConfig" if '"e":"EConfig"' in first else "Config")]
     else:
-        for kind, boundary, per in (("hist", "Config", 6000 if q else 15000), ("grad", "GConfig", 1500 if q else 4000)):
+        for kind, boundary, per in (("hist", "Config", 6000 if q else 15000), ("grad", "GConfig", 1500 if q else 4000), ("ecat", "EConfig", 10 ** 9)):
             cat = os.path.join(ctx.work, kind + "-all.ndjson")
             with open(cat, "w") as f:
                 for name, t in traces:
-                    if name.startswith("grad") == (kind == "grad"):
+                    k = "grad" if name.startswith("grad") else "ecat" if name == "ecat" else "hist"
+                    if k == kind:
                         f.write(open(t).read())
             for c in lib.split_trace(cat, os.path.join(ctx.work, "chunks"), maxlines=per, boundary=boundary):
                 chunks.append((kind, c[0]))
@@ -103,6 +119,7 @@ def run(ctx):
     known_ids = {k["id"]: k for k in ctx.known}
     seen_events = set()
     nexec = {}
+    cover = {}
     for (name, _), (p, ok, r, at) in zip(chunks, res):
         recs = lib.read_ndjson(p)
         ctx.traces += 1
@@ -110,6 +127,8 @@ def run(ctx):
         ctx.states += r.distinct
         bad = lib.unexplained(r)
         badlines = {ln for ln, _ in bad}
+        for k, v in _cover(r).items():
+            cover[k] = cover.get(k, 0) + v
         if at is not None or not ok:
             ctx.violation("trace not consumed (line %s)" % at, p)
             continue
@@ -117,7 +136,7 @@ def run(ctx):
         cur, cfg, dead = None, None, False
         for i, rec in enumerate(recs, 1):
             e = rec["e"]
-            if e in ("Config", "GConfig"):
+            if e in STARTS:
                 cfg = rec
                 dead = False
                 nexec[name] = nexec.get(name, 0) + 1
@@ -125,7 +144,7 @@ def run(ctx):
                     ctx.sample({k: rec[k] for k in rec if k not in ("segs", "rows", "lam", "add")})
                 sig = (e, rec["N"], rec["R"], rec["span"], rec["mash"], rec["tofMash"], rec["maxTang"] - rec["minTang"], rec["maxSeg"],
                        rec.get("segIM"), rec.get("tofIM"), rec.get("storeP"), rec.get("storeD"), rec.get("nStore", 0) > 0,
-                       len(rec.get("frames", [])), rec.get("numSubsets"), rec.get("hasAdd"))
+                       len(rec.get("frames", [])), rec.get("numSubsets"), rec.get("hasAdd"), rec.get("cache"), rec.get("disk"))
             if i in badlines:
                 dead = True
             if dead or cfg is None:
@@ -134,8 +153,10 @@ def run(ctx):
             seen_events.add(e)
             if e == "Out" and rec["nz"]:
                 ctx.nontrivial(json.dumps(sig) + "Out%s" % rec.get("part"))
-            elif e in ("Grad", "Sens") and any(rec["pd"]):
+            elif e in ("Grad", "Sens", "Hess") and any(rec["pd"]):
                 ctx.nontrivial(json.dumps(sig) + e + str(rec.get("plusSens")))
+            elif e == "W":
+                ctx.nontrivial(json.dumps(sig) + "W%s%s%s" % (rec["isEvent"], rec["isTime"], rec.get("ok")))
             elif e in ("St", "Rewind"):
                 ctx.nontrivial(json.dumps(sig) + e)
         # verdicts
@@ -150,12 +171,18 @@ def run(ctx):
                 raise lib.ModelFailure("driver produced an execution outside the domain of LmToProj.tla: %s" % json.dumps(ex[0])[:400])
             rp = os.path.join(ctx.work, "violation-%s-%d.ndjson" % (os.path.basename(p).replace(".ndjson", ""), ln))
             lib.write_ndjson(rp, ex)
-            ctx.violation("execution not explained by LmToProj.tla at its line %d: %s | configuration %s" % (
-                ln - first + 1, json.dumps(recs[ln - 1])[:160], json.dumps({k: ex[0][k] for k in ex[0] if k not in ("segs", "rows", "lam", "add")})[:300]), rp)
+            ctx.violation("execution not explained by LmToProj.tla%s at its line %d: %s | configuration %s" % (
+                " (signature of %s)" % cls if cls != "new" else "", ln - first + 1, json.dumps(recs[ln - 1])[:160], json.dumps({k: ex[0][k] for k in ex[0] if k not in ("segs", "rows", "lam", "add")})[:300]), rp)
     if not ctx.replay:
-        missing = [e for e in HIST_EVENTS + ["Grad", "Sens"] if e not in seen_events]
-        if missing:
+        missing = [e for e in HIST_EVENTS + ["Grad", "Sens", "Hess", "W"] if e not in seen_events]
+        if missing and not ctx.violations:
             raise lib.ModelFailure("vacuity guard: no validated event of kind %s in the recorded traces" % missing)
+        # what TLC saw in the ACCEPTED executions: later passes (rewinds) over a frame without time mark, time marks exactly
+        # on a frame end, empty frames, gradients over several event batches (re-read and cached on disk), TOF ECAT words
+        ctx.extra["cover"] = cover
+        idle = [k for k in ("emptyFrameRewind", "boundaryMark", "emptyOut", "multiBatchMem", "multiBatchDisk", "ecatTofWords") if cover.get(k, 0) == 0]
+        if idle and not ctx.violations:
+            raise lib.ModelFailure("vacuity guard: no accepted recorded execution exercised %s" % idle)
         ctx.extra["executions"] = nexec
     # ---- model checks
     if mc_future is not None:
